@@ -122,6 +122,8 @@ pub struct DaemonH {
     pub pending_cmds: usize,
     pub alive: bool,
     pub iters: u64,
+    /// datagrams are waiting in its ingress queue (a real poll() would return)
+    pub has_ingress: bool,
     evbuf: Vec<Value>,
 }
 
@@ -291,6 +293,7 @@ impl Sim {
             pending_cmds: 0,
             alive: true,
             iters: 0,
+            has_ingress: false,
             evbuf: Vec::new(),
         });
         let idx = self.daemons.len() - 1;
@@ -487,6 +490,7 @@ impl Sim {
             "len": bytes.len(), "origin": origin, "ok": parsed.is_some(),
             "m": parsed.as_ref().map(|m| m.to_json()).unwrap_or(json!({}))});
         self.world.inject(d, v4, if_index, src, None, bytes);
+        self.daemons[i].has_ingress = true;
         self.log(line);
     }
 
@@ -502,6 +506,7 @@ impl Sim {
             return;
         }
         let d = self.daemons[i].d;
+        self.daemons[i].has_ingress = false;
         self.world.grant(d);
         self.finish_park(i, false);
     }
@@ -509,7 +514,7 @@ impl Sim {
     /// Does daemon `i` want to run right now (as a real poll() would return)?
     pub fn runnable(&self, i: usize) -> bool {
         let dh = &self.daemons[i];
-        dh.alive && (dh.pending_cmds > 0 || dh.wake.map_or(false, |w| w <= self.world.now()))
+        dh.alive && (dh.has_ingress || dh.pending_cmds > 0 || dh.wake.map_or(false, |w| w <= self.world.now()))
     }
 
     /// Steps every daemon until none is runnable at the current instant.
@@ -671,6 +676,7 @@ impl Sim {
             "ty": info.get_type(), "tyk": info.get_type().to_lowercase(),
             "sub": info.get_subtype().clone().unwrap_or_default(), "subk": info.get_subtype().clone().unwrap_or_default().to_lowercase(),
             "srvrk": format!("{} {} {} {}", info.get_priority(), info.get_weight(), info.get_port(), info.get_hostname()),
+            "srvpre": format!("{} {} {} ", info.get_priority(), info.get_weight(), info.get_port()),
             "host": info.get_hostname(), "hostk": info.get_hostname().to_lowercase(),
             "port": info.get_port(), "addrs": addrs, "auto": info.is_addr_auto(), "probe": info.requires_probe(),
             "txt": txt_json(info.get_properties()), "txtx": hexs(&fac::generate_txt(&info)),
